@@ -346,6 +346,7 @@ func c15Run(act ref.Op, x *ref.T, form int, down int) core.Verdict {
 }
 
 func checkC15(c *core.Ctx) {
+	defer scalarArgC15(c)
 	defer sweepC15(c)
 	defer soakC15(c)
 	defer gridC15(c)
